@@ -27,7 +27,9 @@ level) names `/p/files/a.txt`, `b` (held by `C` only) names `/p/files/sub/b.txt`
 def exCfg : Cfg :=
   { volatile := true, strict := true, splits := false
     argNames := [("a", ["/p/files/a.txt".toList]), ("b", ["/p/files/sub/b.txt".toList])]
-    argFiles := [("a", ["/p/files/a.txt".toList]), ("b", ["/p/files/sub/b.txt".toList])] }
+    argFiles := [("a", ["/p/files/a.txt".toList]), ("b", ["/p/files/sub/b.txt".toList])]
+    initArgs := [("a", [some "C", none]), ("b", [some "C"])]
+    initPost := [("C", ["a", "b"])] }
 
 def exSt : St :=
   { fileArgs := [("a", [some "C", none]), ("b", [some "C"])]
